@@ -18,6 +18,10 @@ CFG = dict(
         seq("asan_kolkata", "asan", SRC, Q_ASAN, T_ASAN, params={0: 19800, 1: 16}, env=IST),
         seq("rel_utc", "rel", SRC, Q_REL, T_REL, params={0: 0, 1: 64}, env=UTC),
         seq("rel_kolkata", "rel", SRC, Q_REL, T_REL, params={0: 19800, 1: 64}, env=IST),
+        # reentrancy: 2..8 threads run PRNG-derived workloads on this module at once; each thread's digest of everything it
+        # observed must equal the digest of the same workload run alone (harness/mt_pure.c); p0 = rounds per thread
+        seq("mt_tsan", "tsan", "mt_pure.c", 32, 3200, mode="date", params={0: 150}, wrap=True, leak=False),
+        seq("mt_rel", "rel", "mt_pure.c", 32, 3200, mode="date", params={0: 1500}, leak=False),
     ],
     rule=("case = a block of second-resolution instants, identical in all stages for a given (seed, case index). Cases 0..8029: "
           "year 1970+c: every month boundary -1 s / 0 / +1 s, Feb 28 00:00:00, Feb 28 23:59:59, the second after it (Feb 29 or "
